@@ -1,6 +1,6 @@
-(* rtpmpeg1video, decoder side on ARBITRARY packet histories (C08): never panics, the slice buffer and
-   every returned frame stay within maxFrameSize; the fragment table is unbounded (F5) and both tables
-   take empty entries without bound (F6). *)
+(* rtpmpeg1video, decoder side on ARBITRARY packet histories (C08): never panics; the slice buffer and
+   every returned frame stay within maxFrameSize, the fragment table within max(maxFrameSize, packet)
+   (finding F5 repaired by /repo b3e0ab0); both tables still take empty entries without bound (F6). *)
 From GVL Require Import NList Wire Chunks Rtp.
 From GVG Require Import Consts.
 From GV_mpeg1video Require Import Model PEnc.
@@ -35,51 +35,63 @@ Proof.
   f_equal. apply ntake_all. rewrite nlen_ndrop. lia.
 Qed.
 
-(* decode_slice: never panics, keeps the invariant, leaves the slice buffer alone *)
-Lemma decode_slice_inv d p : Inv d ->
+(* decode_slice: never panics, keeps the invariant, leaves the slice buffer alone, and keeps the
+   fragment table within max(maxFrameSize, P) when the packet carries at most P bytes *)
+Lemma decode_slice_inv P d p : Inv d ->
   let '(d1, r) := decode_slice d p in
-  Inv d1 /\ r <> SlPanic /\ dslices d1 = dslices d /\ dssize d1 = dssize d.
+  Inv d1 /\ r <> SlPanic /\ dslices d1 = dslices d /\ dssize d1 = dssize d /\
+  (dfsize d <= N.max cap P -> nlen (ppayload p) <= P -> dfsize d1 <= N.max cap P).
 Proof.
   intros HI. pose proof HI as (H1 & H2 & H3). unfold decode_slice.
-  destruct (N.ltb_spec (nlen (ppayload p)) 4) as [Hl|Hl].
-  { split; [now apply inv_reset_frags|]. split; [discriminate|]. split; reflexivity. }
+  assert (R : Inv (reset_frags d) /\ SlErr <> SlPanic /\ dslices (reset_frags d) = dslices d /\ dssize (reset_frags d) = dssize d /\
+              (dfsize d <= N.max cap P -> nlen (ppayload p) <= P -> dfsize (reset_frags d) <= N.max cap P)).
+  { split; [now apply inv_reset_frags|]. split; [discriminate|]. split; [reflexivity|]. split; [reflexivity|]. cbn [reset_frags dfsize]. lia. }
+  assert (K : Inv d /\ SlErr <> SlPanic /\ dslices d = dslices d /\ dssize d = dssize d /\
+              (dfsize d <= N.max cap P -> nlen (ppayload p) <= P -> dfsize d <= N.max cap P)).
+  { split; [exact HI|]. split; [discriminate|]. split; [reflexivity|]. split; [reflexivity|]. tauto. }
+  destruct (N.ltb_spec (nlen (ppayload p)) 4) as [Hl|Hl]; [exact R|].
   destruct (nnth_lt (ppayload p) 0) as [p0 ->]; [lia|].
   destruct (nnth_lt (ppayload p) 2) as [p2 ->]; [lia|].
   rewrite nsub_suffix by lia. set (body := ndrop 4 (ppayload p)).
-  assert (R : Inv (reset_frags d) /\ SlErr <> SlPanic /\ dslices (reset_frags d) = dslices d /\ dssize (reset_frags d) = dssize d).
-  { split; [now apply inv_reset_frags|]. split; [discriminate|]. split; reflexivity. }
+  assert (Hbody : nlen body = nlen (ppayload p) - 4) by (unfold body; apply nlen_ndrop).
   destruct (negb (p0 / 8 =? 0)); [exact R|]. destruct (negb ((p0 / 4) mod 2 =? 0)); [exact R|].
   destruct (negb (p2 / 128 =? 0)); [exact R|]. destruct (negb ((p2 / 64) mod 2 =? 0)); [exact R|].
   destruct ((p2 / 16) mod 2 =? 1); destruct ((p2 / 8) mod 2 =? 1); cbn [andb].
-  - split; [exact HI|]. split; [discriminate|]. split; reflexivity.
-  - split; [|split; [discriminate|split; reflexivity]]. unfold Inv; cbn. rewrite app_nil_r. tauto.
-  - destruct (dfsize d =? 0); [split; [exact HI|split; [discriminate|split; reflexivity]]|].
+  - split; [exact HI|]. split; [discriminate|]. split; [reflexivity|]. split; [reflexivity|]. tauto.
+  - split; [unfold Inv; cbn; rewrite app_nil_r; tauto|]. split; [discriminate|]. split; [reflexivity|]. split; [reflexivity|].
+    cbn [dfsize]. lia.
+  - destruct (dfsize d =? 0); [exact K|].
     destruct (negb (pseq p =? dfnext d)); [exact R|].
+    destruct (N.ltb_spec cap (dfsize d + nlen body)); [exact R|].
     replace (dfsize d + nlen body) with (nlen (concat (dfrags d ++ [body]))) by (rewrite concat_snoc, nlen_app; lia).
-    rewrite join_exact. split; [unfold Inv; cbn; tauto|]. split; [discriminate|]. split; reflexivity.
-  - destruct (dfsize d =? 0); [split; [exact HI|split; [discriminate|split; reflexivity]]|].
+    rewrite join_exact. split; [unfold Inv; cbn; tauto|]. split; [discriminate|]. split; [reflexivity|]. split; [reflexivity|].
+    cbn [dfsize]. lia.
+  - destruct (dfsize d =? 0); [exact K|].
     destruct (negb (pseq p =? dfnext d)); [exact R|].
-    split; [|split; [discriminate|split; reflexivity]]. unfold Inv; cbn. rewrite concat_snoc, nlen_app. splits; [lia|assumption|assumption].
+    destruct (N.ltb_spec cap (dfsize d + nlen body)); [exact R|].
+    split; [unfold Inv; cbn; rewrite concat_snoc, nlen_app; splits; [lia|assumption|assumption]|].
+    split; [discriminate|]. split; [reflexivity|]. split; [reflexivity|]. cbn [dfsize]. lia.
 Qed.
 
-Lemma dec_inv d p : Inv d ->
-  Inv (fst (dec d p)) /\ snd (dec d p) <> DPanic /\ (forall f, snd (dec d p) = DFrame f -> nlen f <= cap).
+Lemma dec_inv P d p : Inv d ->
+  Inv (fst (dec d p)) /\ snd (dec d p) <> DPanic /\ (forall f, snd (dec d p) = DFrame f -> nlen f <= cap) /\
+  (dfsize d <= N.max cap P -> nlen (ppayload p) <= P -> dfsize (fst (dec d p)) <= N.max cap P).
 Proof.
-  intros HI. unfold dec. pose proof (decode_slice_inv d p HI) as Hs.
-  destruct (decode_slice d p) as [d1 r]. destruct Hs as (HI1 & Hnp & Hsl & Hss).
-  destruct r as [s| | |]; cbn [fst snd]; try (split; [assumption|split; [discriminate|discriminate]]); [|contradiction].
+  intros HI. unfold dec. pose proof (decode_slice_inv P d p HI) as Hs.
+  destruct (decode_slice d p) as [d1 r]. destruct Hs as (HI1 & Hnp & Hsl & Hss & Hfb).
+  destruct r as [s| | |]; cbn [fst snd]; try (split; [assumption|split; [discriminate|split; [discriminate|assumption]]]); [|contradiction].
   pose proof HI1 as (H1 & H2 & H3).
   destruct (N.ltb_spec cap (dssize d1 + nlen s)) as [Hov|Hfit]; cbn [fst snd].
-  { split; [unfold Inv; cbn; splits; [assumption|reflexivity|unfold cap, mpeg1video_max_frame_size; lia]|]. split; discriminate. }
+  { split; [unfold Inv; cbn; splits; [assumption|reflexivity|unfold cap, mpeg1video_max_frame_size; lia]|]. split; [discriminate|]. split; [discriminate|exact Hfb]. }
   destruct (pmarker p); cbn [negb fst snd].
   - cbn [dslices dssize].
     replace (dssize d1 + nlen s) with (nlen (concat (dslices d1 ++ [s]))) by (rewrite concat_snoc, nlen_app; lia).
     rewrite join_exact.
     assert (HI3 : Inv (mkD (dfrags d1) (dfsize d1) (dfnext d1) [] 0)).
     { unfold Inv; cbn. splits; [assumption|reflexivity|unfold cap, mpeg1video_max_frame_size; lia]. }
-    destruct (validate _ _); cbn [fst snd]; (split; [exact HI3|]); (split; [discriminate|]); [|discriminate].
+    destruct (validate _ _); cbn [fst snd dfsize]; (split; [exact HI3|]); (split; [discriminate|]); (split; [|exact Hfb]); [|discriminate].
     intros f Hf. injection Hf as <-. rewrite concat_snoc, nlen_app. lia.
-  - split; [|split; discriminate]. unfold Inv; cbn. rewrite concat_snoc, nlen_app. splits; [assumption|lia|lia].
+  - split; [unfold Inv; cbn; rewrite concat_snoc, nlen_app; splits; [assumption|lia|lia]|]. split; [discriminate|]. split; [discriminate|exact Hfb].
 Qed.
 
 Lemma dec_run_inv ps : forall d, Inv d ->
@@ -87,7 +99,7 @@ Lemma dec_run_inv ps : forall d, Inv d ->
   forall f, In (DFrame f) (snd (dec_run d ps)) -> nlen f <= cap.
 Proof.
   induction ps as [|p t IH]; intros d HI; cbn [dec_run]; [cbn; tauto|].
-  destruct (dec_inv d p HI) as (HI' & Hnp & Hfr). destruct (dec d p) as [d' r] eqn:E. cbn [fst snd] in *.
+  destruct (dec_inv 0 d p HI) as (HI' & Hnp & Hfr & _). destruct (dec d p) as [d' r] eqn:E. cbn [fst snd] in *.
   destruct (IH d' HI') as (HI'' & Hnp' & Hfr'). destruct (dec_run d' t) as [d'' rs]. cbn [fst snd] in *.
   split; [assumption|]. split.
   - intros [H|H]; [congruence|contradiction].
@@ -104,69 +116,64 @@ Proof. apply (dec_run_inv hist dinit inv_init). Qed.
 Theorem slicebuffer_bounded hist : nlen (concat (dslices (fst (dec_run dinit hist)))) <= cap.
 Proof. destruct (dec_run_inv hist dinit inv_init) as ((_ & H2 & H3) & _). lia. Qed.
 
-(* ---------- F5: the fragment table has no byte cap ---------- *)
-Definition start1 : packet := mkPkt 0 0 false [0; 0; 16; 0; 9].           (* B=1, one body byte *)
-Fixpoint mids (body : bytes) (seq : N) (k : nat) : list packet :=
-  match k with O => [] | S k' => mkPkt seq 0 false ([0; 0; 0; 0] ++ body) :: mids body (seq_next seq) k' end.
-
-Lemma mids_small body seq k : Forall (fun p => nlen (ppayload p) <= 4 + nlen body) (mids body seq k).
+(* C08, bytes (finding F5 repaired): for every history of packets with at most P payload bytes the
+   decoder retains at most maxFrameSize (slice buffer) + max(maxFrameSize, P) (fragment table) bytes *)
+Theorem bounded P hist : Forall (fun p => nlen (ppayload p) <= P) hist ->
+  fst (retained (fst (dec_run dinit hist))) <= cap + N.max cap P.
 Proof.
-  revert seq; induction k as [|k IH]; intros seq; cbn [mids]; constructor; [|apply IH].
-  cbn [ppayload]. rewrite nlen_app. cbn [nlen]. lia.
+  assert (G : forall hist d, Inv d -> dfsize d <= N.max cap P -> Forall (fun p => nlen (ppayload p) <= P) hist ->
+    Inv (fst (dec_run d hist)) /\ dfsize (fst (dec_run d hist)) <= N.max cap P).
+  { clear hist. induction hist as [|p t IH]; intros d HI Hb HP; cbn [dec_run]; [cbn; tauto|].
+    inversion HP as [|? ? Hp Ht]; subst.
+    destruct (dec_inv P d p HI) as (HI' & _ & _ & Hb'). destruct (dec d p) as [d' r]. cbn [fst snd] in *.
+    specialize (IH d' HI' (Hb' Hb Hp) Ht). destruct (dec_run d' t) as [d'' rs]. exact IH. }
+  intros HP. destruct (G hist dinit inv_init ltac:(cbn; lia) HP) as [(H1 & H2 & H3) Hb].
+  unfold retained; cbn [fst]. lia.
 Qed.
 
-Lemma mids_grow body k : forall d, 0 < dfsize d ->
-  let d' := fst (dec_run d (mids body (dfnext d) k)) in
-  nlen (dfrags d') = nlen (dfrags d) + N.of_nat k /\ dfsize d' = dfsize d + N.of_nat k * nlen body /\
-  nlen (concat (dfrags d')) = nlen (concat (dfrags d)) + N.of_nat k * nlen body /\
-  dslices d' = dslices d.
+(* ---------- F6: empty entries are appended without bound ---------- *)
+Definition start1 : packet := mkPkt 0 0 false [0; 0; 16; 0; 9].           (* B=1, one body byte *)
+Fixpoint mids (seq : N) (k : nat) : list packet :=                          (* empty middle fragments *)
+  match k with O => [] | S k' => mkPkt seq 0 false [0; 0; 0; 0] :: mids (seq_next seq) k' end.
+
+Lemma mids_small seq k : Forall (fun p => nlen (ppayload p) <= 5) (mids seq k).
+Proof. revert seq; induction k as [|k IH]; intros seq; cbn [mids]; constructor; [cbn; lia|apply IH]. Qed.
+
+Lemma mids_grow k : forall d, 0 < dfsize d -> dfsize d <= cap ->
+  let d' := fst (dec_run d (mids (dfnext d) k)) in
+  nlen (dfrags d') = nlen (dfrags d) + N.of_nat k /\ dfsize d' = dfsize d /\
+  nlen (concat (dfrags d')) = nlen (concat (dfrags d)) /\ dslices d' = dslices d.
 Proof.
-  induction k as [|k IH]; intros d Hs; cbn [mids dec_run]; [cbn; splits; try lia; reflexivity|].
-  assert (E : dec d (mkPkt (dfnext d) 0 false ([0; 0; 0; 0] ++ body)) =
-    (mkD (dfrags d ++ [body]) (dfsize d + nlen body) (seq_next (dfnext d)) (dslices d) (dssize d), DMore)).
-  { unfold dec, decode_slice. cbn [ppayload pseq app nlen].
-    destruct (N.ltb_spec (N.succ (N.succ (N.succ (N.succ (nlen body))))) 4); [lia|].
-    cbn [nnth N.eqb N.pred Pos.pred_N]. 
-    replace (nsub (0 :: 0 :: 0 :: 0 :: body) 4 (N.succ (N.succ (N.succ (N.succ (nlen body)))))) with (Some body).
-    2:{ unfold nsub. cbn [nlen]. destruct (N.leb_spec 4 (N.succ (N.succ (N.succ (N.succ (nlen body)))))); [|lia].
-        rewrite N.leb_refl. cbn [andb ndrop N.eqb N.pred Pos.pred_N]. rewrite ndrop_0. f_equal. symmetry. apply ntake_all. lia. }
-    cbn. destruct (N.eqb_spec (dfsize d) 0); [lia|]. rewrite N.eqb_refl. cbn. reflexivity. }
+  induction k as [|k IH]; intros d Hs Hc; cbn [mids dec_run]; [cbn; splits; try lia; reflexivity|].
+  assert (E : dec d (mkPkt (dfnext d) 0 false [0; 0; 0; 0]) =
+    (mkD (dfrags d ++ [[]]) (dfsize d + 0) (seq_next (dfnext d)) (dslices d) (dssize d), DMore)).
+  { unfold dec, decode_slice. cbn [ppayload pseq nlen].
+    replace (nsub [0; 0; 0; 0] 4 (N.succ (N.succ (N.succ (N.succ 0))))) with (Some (@nil N)) by reflexivity.
+    cbn. destruct (N.eqb_spec (dfsize d) 0); [lia|]. rewrite N.eqb_refl. cbn.
+    destruct (N.ltb_spec cap (dfsize d + 0)); [lia|]. reflexivity. }
   rewrite E. set (d2 := mkD _ _ _ _ _).
   specialize (IH d2). replace (seq_next (dfnext d)) with (dfnext d2) by reflexivity.
-  destruct (dec_run d2 (mids body (dfnext d2) k)) as [d3 rs]. cbn [fst] in *.
-  destruct IH as (I1 & I2 & I3 & I4); [unfold d2; cbn; lia|]. unfold d2 in *; cbn [dfrags dfsize dslices] in *.
-  rewrite nlen_app in I1. rewrite concat_snoc, nlen_app in I3. cbn [nlen] in I1.
-  rewrite Nat2N.inj_succ, N.mul_succ_l. splits; try lia; assumption.
+  destruct (dec_run d2 (mids (dfnext d2) k)) as [d3 rs]. cbn [fst] in *.
+  destruct IH as (I1 & I2 & I3 & I4); [unfold d2; cbn; lia|unfold d2; cbn; lia|]. unfold d2 in *; cbn [dfrags dfsize dslices] in *.
+  rewrite nlen_app in I1. rewrite concat_snoc, app_nil_r in I3. cbn [nlen] in I1.
+  rewrite Nat2N.inj_succ. splits; try lia; assumption.
 Qed.
 
 Definition after_start1 : dstate := mkD [[9]] 1 1 [] 0.
 Lemma dec_start1 : dec dinit start1 = (after_start1, DMore).
 Proof. vm_compute. reflexivity. Qed.
 
-(* for every B: a history of packets of at most 5 payload bytes after which more than B bytes are retained *)
-Theorem bytes_bounded_refuted : forall B, exists hist,
-  Forall (fun p => nlen (ppayload p) <= 5) hist /\ B < fst (retained (fst (dec_run dinit hist))).
-Proof.
-  intros B. exists (start1 :: mids [7] 1 (N.to_nat B)). split.
-  - constructor; [cbn; lia|]. apply (mids_small [7]).
-  - cbn [dec_run]. rewrite dec_start1.
-    pose proof (mids_grow [7] (N.to_nat B) after_start1 ltac:(cbn; lia)) as H. cbn [dfnext after_start1] in H.
-    destruct (dec_run after_start1 (mids [7] 1 (N.to_nat B))) as [d rs]. cbn [fst] in *.
-    destruct H as (_ & _ & H3 & _). unfold retained; cbn [fst]. rewrite H3, N2Nat.id.
-    cbn [after_start1 dfrags concat nlen app]. lia.
-Qed.
-
-(* ---------- F6: empty entries are appended without bound ---------- *)
 (* (a) empty middle fragments: every packet has a 4-byte payload (header only) *)
 Theorem slices_bounded_refuted_fragments : forall B, exists hist,
   Forall (fun p => nlen (ppayload p) <= 5) hist /\
   B < snd (retained (fst (dec_run dinit hist))) /\ fst (retained (fst (dec_run dinit hist))) = 1.
 Proof.
-  intros B. exists (start1 :: mids [] 1 (N.to_nat B)). split.
-  - constructor; [cbn; lia|]. eapply Forall_impl; [|apply (mids_small [])]. cbn. intros p. lia.
+  intros B. exists (start1 :: mids 1 (N.to_nat B)). split.
+  - constructor; [cbn; lia|]. apply mids_small.
   - cbn [dec_run]. rewrite dec_start1.
-    pose proof (mids_grow [] (N.to_nat B) after_start1 ltac:(cbn; lia)) as H. cbn [dfnext after_start1] in H.
-    destruct (dec_run after_start1 (mids [] 1 (N.to_nat B))) as [d rs]. cbn [fst] in *.
+    pose proof (mids_grow (N.to_nat B) after_start1 ltac:(cbn; lia) ltac:(cbn; unfold cap, mpeg1video_max_frame_size; lia)) as H.
+    cbn [dfnext after_start1] in H.
+    destruct (dec_run after_start1 (mids 1 (N.to_nat B))) as [d rs]. cbn [fst] in *.
     destruct H as (H1 & _ & H3 & H4). unfold retained; cbn [fst snd]. rewrite H1, H3, H4, N2Nat.id.
     cbn [after_start1 dfrags dslices concat nlen app]. lia.
 Qed.
